@@ -1,4 +1,5 @@
-import Jasm.Proofs.Lang
+import Jasm.Proofs.DerefLang
+import Jasm.Proofs.Master
 import Jasm.Properties.C09
 /-!
 # C06 `$deref` matches exactly the memory operand objdump prints as k(a,b,c)
@@ -12,184 +13,26 @@ End to end: the normal form of the printed operand is one of the accepted texts.
 namespace Jasm.C06
 open Jasm
 
-structure DerefSpec where
-  a : Str
-  b : Option Str
-  c : Option Str
-  k : Option Str
-
-def field (name : String) (v : Str) : Pat := .derefField name.toList [.derefProp v 0]
-
-def DerefSpec.fields (d : DerefSpec) : List Pat :=
-  [field "main_reg" d.a] ++
-    (match d.b with | some b => [field "register_multiplier" b] | none => []) ++
-    (match d.c with | some c => [field "constant_multiplier" c] | none => []) ++
-    (match d.k with | some k => [field "constant_offset" k] | none => [])
-
-def DerefSpec.toPat (d : DerefSpec) : Pat := .deref d.fields Times.one
-
-/-- components are non-empty (an empty component counts as absent in the code) -/
-def DerefSpec.WF (d : DerefSpec) : Prop :=
-  (∀ b, d.b = some b → b ≠ []) ∧ (∀ c, d.c = some c → c ≠ []) ∧ (∀ k, d.k = some k → k ≠ [])
-
-/-- the regex the compiler builds -/
-def DerefSpec.rx (d : DerefSpec) : Rx :=
-  let mid : Rx := match d.b, d.c with
-    | some b, some c => seqAll [.esc '+', .seq optionalPercent (lit b), .esc '*', .seq optionalHex (lit c)]
-    | some b, none => seqAll [.esc '+', .seq optionalPercent (lit b)]
-    | none, some c => seqAll [.esc '+', .seq optionalHex (lit c)]
-    | none, none => .eps
-  let off : Rx := match d.k with
-    | some k => seqAll [.esc '+', .seq optionalHex (lit k)]
-    | none => .eps
-  .seq (seqAll [.esc '[', optionalPercent, lit d.a, mid, off, .esc ']']) (.chr ',')
-
-theorem isEmpty_render_lit (t : Str) (h : t ≠ []) : ¬ ((lit t).render = []) := by
-  rw [render_lit]; exact h
-
-theorem comp_deref (fl : Flags) (caps : List Str) (d : DerefSpec) (h : d.WF) :
-    comp fl caps d.toPat = .ok d.rx := by
-  obtain ⟨a, b, c, k⟩ := d
-  obtain ⟨hb, hc, hk⟩ := h
-  simp only at hb hc hk
-  cases b with
-  | none =>
-    cases c with
-    | none =>
-      cases k with
-      | none => simp [DerefSpec.toPat, DerefSpec.fields, field, DerefSpec.rx, comp, compFields, derefChildNames, bind, Except.bind, pure, Except.pure, List.find?]
-      | some k =>
-        have := isEmpty_render_lit k (hk k rfl)
-        simp [DerefSpec.toPat, DerefSpec.fields, field, DerefSpec.rx, comp, compFields, derefChildNames, bind, Except.bind, pure, Except.pure, List.find?, this]
-    | some c =>
-      have h2 := isEmpty_render_lit c (hc c rfl)
-      cases k with
-      | none => simp [DerefSpec.toPat, DerefSpec.fields, field, DerefSpec.rx, comp, compFields, derefChildNames, bind, Except.bind, pure, Except.pure, List.find?, h2]
-      | some k =>
-        have := isEmpty_render_lit k (hk k rfl)
-        simp [DerefSpec.toPat, DerefSpec.fields, field, DerefSpec.rx, comp, compFields, derefChildNames, bind, Except.bind, pure, Except.pure, List.find?, this, h2]
-  | some b =>
-    have h1 := isEmpty_render_lit b (hb b rfl)
-    cases c with
-    | none =>
-      cases k with
-      | none => simp [DerefSpec.toPat, DerefSpec.fields, field, DerefSpec.rx, comp, compFields, derefChildNames, bind, Except.bind, pure, Except.pure, List.find?, h1]
-      | some k =>
-        have := isEmpty_render_lit k (hk k rfl)
-        simp [DerefSpec.toPat, DerefSpec.fields, field, DerefSpec.rx, comp, compFields, derefChildNames, bind, Except.bind, pure, Except.pure, List.find?, this, h1]
-    | some c =>
-      have h2 := isEmpty_render_lit c (hc c rfl)
-      cases k with
-      | none => simp [DerefSpec.toPat, DerefSpec.fields, field, DerefSpec.rx, comp, compFields, derefChildNames, bind, Except.bind, pure, Except.pure, List.find?, h1, h2]
-      | some k =>
-        have := isEmpty_render_lit k (hk k rfl)
-        simp [DerefSpec.toPat, DerefSpec.fields, field, DerefSpec.rx, comp, compFields, derefChildNames, bind, Except.bind, pure, Except.pure, List.find?, this, h1, h2]
-
-theorem lang_optionalPercent : optionalPercent.lang = some [['%'], []] := rfl
-theorem lang_optionalHex : optionalHex.lang = some [['0', 'x'], []] := rfl
-
-/-- the texts the specification lists for a `DerefSpec` (`derefTexts` of `Jasm/Spec/Den.lean`), explicitly -/
-def DerefSpec.texts (d : DerefSpec) : List Str :=
-  let sp (pre : String) (x : Str) : List Str := [pre.toList ++ x, x]
-  let mids : List Str := match d.b, d.c with
-    | some b, some c => (sp "%" b).flatMap fun b' => (sp "0x" c).map fun c' => '+' :: b' ++ '*' :: c'
-    | some b, none => (sp "%" b).map fun b' => '+' :: b'
-    | none, some c => (sp "0x" c).map fun c' => '+' :: c'
-    | none, none => [[]]
-  let offs : List Str := match d.k with
-    | some k => (sp "0x" k).map fun k' => '+' :: k'
-    | none => [[]]
-  (sp "%" d.a).flatMap fun a' => mids.flatMap fun m => offs.map fun o => '[' :: a' ++ m ++ o ++ [']']
-
-theorem derefTexts_spec (d : DerefSpec) (h : d.WF) : derefTexts d.fields = d.texts := by
-  obtain ⟨a, b, c, k⟩ := d
-  obtain ⟨hb, hc, hk⟩ := h
-  simp only at hb hc hk
-  cases b with
-  | none =>
-    cases c with
-    | none =>
-      cases k with
-      | none => simp [derefTexts, fieldTexts, componentTexts, DerefSpec.fields, field, DerefSpec.texts, withOpt, List.find?]
-      | some k =>
-        have hk' : k ≠ [] := hk k rfl
-        simp [derefTexts, fieldTexts, componentTexts, DerefSpec.fields, field, DerefSpec.texts, withOpt, List.find?, hk']
-    | some c =>
-      have hc' : c ≠ [] := hc c rfl
-      cases k with
-      | none => simp [derefTexts, fieldTexts, componentTexts, DerefSpec.fields, field, DerefSpec.texts, withOpt, List.find?, hc']
-      | some k =>
-        have hk' : k ≠ [] := hk k rfl
-        simp [derefTexts, fieldTexts, componentTexts, DerefSpec.fields, field, DerefSpec.texts, withOpt, List.find?, hk', hc']
-  | some b =>
-    have hb' : b ≠ [] := hb b rfl
-    cases c with
-    | none =>
-      cases k with
-      | none => simp [derefTexts, fieldTexts, componentTexts, DerefSpec.fields, field, DerefSpec.texts, withOpt, List.find?, hb']
-      | some k =>
-        have hk' : k ≠ [] := hk k rfl
-        simp [derefTexts, fieldTexts, componentTexts, DerefSpec.fields, field, DerefSpec.texts, withOpt, List.find?, hk', hb']
-    | some c =>
-      have hc' : c ≠ [] := hc c rfl
-      cases k with
-      | none => simp [derefTexts, fieldTexts, componentTexts, DerefSpec.fields, field, DerefSpec.texts, withOpt, List.find?, hb', hc']
-      | some k =>
-        have hk' : k ≠ [] := hk k rfl
-        simp [derefTexts, fieldTexts, componentTexts, DerefSpec.fields, field, DerefSpec.texts, withOpt, List.find?, hk', hb', hc']
-
-theorem lang_rx (d : DerefSpec) : d.rx.lang = some (d.texts.map (· ++ [','])) := by
-  obtain ⟨a, b, c, k⟩ := d
-  cases b <;> cases c <;> cases k <;>
-    simp [DerefSpec.rx, DerefSpec.texts, Rx.lang, seqAll, lang_lit, lang_optionalPercent, lang_optionalHex]
-
 /-- **C06 (compiler side)**: the compiled `$deref` accepts exactly the texts `[a+b*c+k]` built from
 the present components (registers optionally without `%`, constants optionally without `0x`),
 followed by the operand separator - on any input whatsoever -/
 theorem C06_rx (fl : Flags) (caps : List Str) (d : DerefSpec) (h : d.WF) (r : Rx) (hc : comp fl caps d.toPat = .ok r)
     (e : Env) (s : Str) (x : Env × Str) :
-    x ∈ r.run e s ↔ ∃ t ∈ derefTexts d.fields, s = t ++ ',' :: x.2 ∧ x.1 = e := by
-  rw [comp_deref fl caps d h] at hc
-  cases hc
-  rw [mem_lang d.rx _ (lang_rx d) e s x, derefTexts_spec d h]
-  simp only [List.mem_map]
-  constructor
-  · rintro ⟨_, ⟨t, ht, rfl⟩, hs, he⟩; exact ⟨t, ht, by simpa using hs, he⟩
-  · rintro ⟨t, ht, hs, he⟩; exact ⟨_, ⟨t, ht, rfl⟩, by simpa using hs, he⟩
+    x ∈ r.run e s ↔ ∃ t ∈ derefTexts d.fields, s = t ++ ',' :: x.2 ∧ x.1 = e :=
+  deref_rx fl caps d h r hc e s x
 
-/-- inside an operand list: the compiled `$deref` consumes exactly one operand field, and only a
-field that is one of the accepted texts; the following operands are left to the rest of the pattern -/
+/-- **C06 (one operand field)**: at an operand position the compiled `$deref` consumes exactly one
+field, and only a field that is one of the accepted texts -/
 theorem C06_field (fl : Flags) (caps : List Str) (d : DerefSpec) (h : d.WF) (r : Rx) (hc : comp fl caps d.toPat = .ok r)
     (hclean : ∀ t ∈ derefTexts d.fields, ∀ c ∈ t, c ≠ ',')
     (T : Str) (f : Str) (fs : List Str) (hf : ∀ c ∈ f, c ≠ ',') (e : Env) (x : Env × Str) :
-    x ∈ r.run e (txtO T (f :: fs)) ↔ (f ∈ derefTexts d.fields ∧ x = (e, txtO T fs)) := by
-  rw [C06_rx fl caps d h r hc, txtO_cons]
-  constructor
-  · rintro ⟨t, ht, hs, he⟩
-    obtain ⟨q, hq1, hq2⟩ := prefix_inside t f (txtO T fs) (',' :: x.2) (hclean t ht) hs
-    cases q with
-    | nil =>
-      simp at hq1 hq2
-      obtain ⟨x1, x2⟩ := x
-      simp at he hq2; subst he
-      exact ⟨by rw [hq1]; exact ht, by rw [hq2]⟩
-    | cons c q' =>
-      simp at hq2
-      exact absurd hq2.1.symm (hf c (by rw [hq1]; simp))
-  · rintro ⟨hmem, rfl⟩
-    exact ⟨f, hmem, rfl, rfl⟩
+    x ∈ r.run e (txtO T (f :: fs)) ↔ (f ∈ derefTexts d.fields ∧ x = (e, txtO T fs)) :=
+  deref_field fl caps d h r hc hclean T f fs hf e x
 
-/-- no field left: the `$deref` does not match (it never reaches into the next instruction) -/
+/-- no operand field left: no match -/
 theorem C06_no_field (fl : Flags) (caps : List Str) (d : DerefSpec) (h : d.WF) (r : Rx) (hc : comp fl caps d.toPat = .ok r)
-    (T : Str) (e : Env) : r.run e (txtO T []) = [] := by
-  apply List.eq_nil_iff_forall_not_mem.mpr
-  intro x hx
-  obtain ⟨t, ht, hs, _⟩ := (C06_rx fl caps d h r hc e _ x).mp hx
-  rw [derefTexts_spec d h] at ht
-  rw [txtO_nil] at hs
-  simp only [DerefSpec.texts, List.mem_flatMap, List.mem_map] at ht
-  obtain ⟨a', _, m, _, o, _, rfl⟩ := ht
-  simp at hs
+    (T : Str) (e : Env) : r.run e (txtO T []) = [] :=
+  deref_no_field fl caps d h r hc T e
 
 /-- **C06 (end to end)**: the operand objdump prints as `k(%a,%b,c)` is normalised by the parser to a
 text the compiled `$deref {main_reg: a, register_multiplier: b, constant_multiplier: c,
